@@ -10,6 +10,7 @@ import (
 	"strconv"
 	"strings"
 	"time"
+	"unicode/utf8"
 
 	"github.com/google/gopacket/layers"
 	"github.com/spf13/cobra"
@@ -554,6 +555,10 @@ func parseRateLimit(rateLimit string) (rateCount int, rateWindow time.Duration, 
 }
 
 func parsePacketPayload(payload string) (result []byte, err error) {
+	if !utf8.ValidString(payload) {
+		// raw bytes that are not UTF-8 would be replaced by U+FFFD; they must be written as \xHH
+		return nil, strconv.ErrSyntax
+	}
 	var unquoted string
 	if unquoted, err = strconv.Unquote(`"` + payload + `"`); err != nil {
 		return
